@@ -23,7 +23,8 @@ Accepted statements
     the fixed prologue/epilogue lines (name = name or func.__name__; method = Method(name,
     func.__doc__); code = func.__code__; method.interface = interface; return method)
 Accepted expressions
-    int constants, variables, imlevel, code.co_argcount, code.co_kwonlyargcount,
+    int constants, variables (imlevel is one, initialised from the argument and
+    re-assignable, e.g. ``if imlevel > code.co_argcount: imlevel = code.co_argcount``), code.co_argcount, code.co_kwonlyargcount,
     code.co_varnames, a + b, a - b, -a, not a, a < b (<=, >, >=, ==, !=), len(s), s[a:], s[:b],
     s[a:b], {}, code.co_flags & CO_VARARGS, code.co_flags & CO_VARKEYWORDS,
     getattr(func, '__defaults__', None) or ()      -> fn_defaults co
@@ -95,8 +96,6 @@ class Translator:
                 return "(%d)%%Z" % e.value, INT
             raise Abort("unsupported constant: " + _where(e))
         if isinstance(e, ast.Name):
-            if e.id == "imlevel" and "imlevel" not in env:
-                return "(Z.of_nat (fn_imlevel co))", INT
             if e.id in env and env[e.id] != CODE:
                 return cvar(e.id), env[e.id]
             raise Abort("unknown variable: " + _where(e))
@@ -271,7 +270,7 @@ class Translator:
                 raise Abort("multiple assignment: " + _where(s))
             t = s.targets[0]
             if isinstance(t, ast.Name):
-                if t.id in ("func", "interface", "imlevel", "name", "method", "code", "co", "len", "getattr",
+                if t.id in ("func", "interface", "name", "method", "code", "co", "len", "getattr",
                             "zip", "dict", "Method", "CO_VARARGS", "CO_VARKEYWORDS"):
                     raise Abort("assignment to a reserved name: " + _where(s))
                 key, want = t.id, None
@@ -363,7 +362,9 @@ class Translator:
                     raise Abort("method is never created")
             return "  Ok (mkMethod %s)" % " ".join(cvar("method." + f) for f in FIELD_ORDER)
 
-        return self.block(body[:-1], {}, tail, "  ")
+        # the imlevel argument is an ordinary (re-assignable) int variable
+        return ("  let v_imlevel := (Z.of_nat (fn_imlevel co)) in\n"
+                + self.block(body[:-1], {"imlevel": INT}, tail, "  "))
 
 
 def _find_function(tree, name):
